@@ -84,7 +84,7 @@ def diff_rows(it):
         return None
     n = meta["entities"]
     exprs = [f"match cell_step bp_{it.id} cut_{it.id} {n + 2}%nat with Some (_, _, st') => "
-             f"map (latch_diff_rows ds_{it.id} st') latches_{it.id} | None => [] end"]
+             f"map (latch_diff_rows (b_univ bp_{it.id}) ds_{it.id} st') latches_{it.id} | None => [] end"]
     rc, outs, text = H.coq_eval(defs, exprs, S.EXTRA, tag=f"lr{it.id}")
     if not outs or outs[0] is None:
         return None
